@@ -78,18 +78,26 @@ def build_asan_harness(name):
     return out
 
 
+REPAIR_MARKERS = [("include/Basic/ASerializable.hpp", "ecr >= nvalues"),
+                  ("src/Db/Db.cpp", "may not be negative"),
+                  ("include/Fractures/FracEnviron.hpp", 'return "FracEnviron"')]
+
+
 def repaired():
     """which tree the 'real' mode of NeutralFile.tla has to transcribe: the one first examined, or the one after the repairs of
-    the reading / writing defects (recognised in the sources: ASerializable::_recordReadVec tests 'ecr >= nvalues');
+    the reading / writing defects.  The repaired tree is recognised in the sources by the texts of three of the repairs (two
+    of the three are enough: a later change of one of these places must not switch the transcription);
     VERIF_NF_REPAIRED=0/1 forces the answer"""
     v = os.environ.get("VERIF_NF_REPAIRED")
     if v is not None:
         return v not in ("0", "", "false", "FALSE")
-    try:
-        src = open(os.path.join(vlib.REPO, "include", "Basic", "ASerializable.hpp")).read()
-    except OSError:
-        return False
-    return "ecr >= nvalues" in src
+    n = 0
+    for rel, text in REPAIR_MARKERS:
+        try:
+            n += 1 if text in open(os.path.join(vlib.REPO, rel)).read() else 0
+        except OSError:
+            pass
+    return n >= 2
 
 
 def repaired_tla():
